@@ -6,4 +6,5 @@
 From V Require Import Base.Util Gql.Ast C03.Model C03.Spec C03.Corr.
 
 Definition holds4 (c : case) : bool :=
+  schema_wf (c_schema c) && input_types_closed (c_schema c) &&   (* the guards of the theorems hold for the schema *)
   if spec_valid (c_schema c) (c_doc c) then match c_out c with [] => true | _ => false end else true.
